@@ -104,14 +104,14 @@ func (p Path) Covers(q Path) bool {
 
 // Model is the boring reference representation of a YANG data tree.
 type Model struct {
-	Leaves   map[string]Value    // leaf and leaf-list values by path
-	Entries  map[string]bool     // keyed / ordered list entries
-	Order    map[string][]string // ordered-by-user list (path without keys) -> key strings in order
-	Presence map[string]bool     // presence containers that exist
-	Unkeyed  map[string][]string // unkeyed list path -> canonical form of each element
-	Bad      []string            // consistency facts that do not hold (map key != key leaf, nil entry ...)
-	Extra    []string            // Go-representation facts that are not data (empty non-nil leaf-list): part of state identity only
-	Paths    map[string]Path     // structured form of every path string above
+	Leaves   map[string]Value       // leaf and leaf-list values by path
+	Entries  map[string]bool        // keyed / ordered list entries
+	Order    map[string][]string    // ordered-by-user list (path without keys) -> key strings in order
+	Presence map[string]bool        // presence containers that exist
+	Unkeyed  map[string][]string    // unkeyed list path -> canonical form of each element
+	Bad      []string               // consistency facts that do not hold (map key != key leaf, nil entry ...)
+	Extra    []string               // Go-representation facts that are not data (empty non-nil leaf-list): part of state identity only
+	Paths    map[string]Path        // structured form of every path string above
 	Structs  map[string]interface{} // container / list-entry path -> GoStruct pointer found there (not cloned)
 }
 
